@@ -1095,7 +1095,14 @@ def divmod_euclid(st, x, c, force=False):
     key = (x, c, 'euclid')
     got = DIVMOD.get(key)
     if got is None and lo >= 0 and not force:
-        return divmod_vids(st, x, c)      # coincides with truncating division
+        # coincides with truncating division in this state.  The truncating triple is exact (split into affine forms) only for dividends
+        # that are non-negative in every state; for the others the Euclidean triple below is the more precise one and is equally valid here.
+        _before = set(GRANGE)
+        gx = grange_of(x)
+        for _k in set(GRANGE) - _before:
+            del GRANGE[_k]
+        if (gx is not None and gx[0] >= 0) or x not in AFF or (x, c) in DIVMOD:
+            return divmod_vids(st, x, c)
     if got is None:
         q = new_vid(); r = new_vid()
         cv = const_vid(c)
